@@ -4,6 +4,6 @@
 . "$(dirname "$0")/env.sh"
 rc=0
 for m in . publish quic; do
-  (cd /repo/$m && go test -mod=mod -json -vet=off -count=1 -timeout 25m ./...) || rc=1
+  (cd $VERIF_REPO/$m && GOFLAGS=-mod=mod go test -mod=mod -json -vet=off -count=1 -timeout 25m ./...) || rc=1
 done
 exit $rc
